@@ -168,7 +168,7 @@ def lit_value(t):
     return t.value
 
 
-def model_tree(m, I, numbering=None, ignored=None):
+def model_tree(m, I, numbering=None, ignored=None, symlog=None):
     """the dataclass tree Hugr.to_model() returned, reduced to what the property speaks about.
     Fails closed on classes it does not know and on malformed entries of the three metadata symbols the property
     speaks about; metadata terms with any other symbol are not the property's business (counted in `ignored`,
@@ -196,6 +196,8 @@ def model_tree(m, I, numbering=None, ignored=None):
         return k
 
     def sym(x):
+        if symlog is not None:
+            symlog.append(x)
         return I("sym:" + x)
 
     def node(n):
@@ -448,6 +450,38 @@ def named_program(name):
         n1 = g.add_op(Not, b, metadata={"b": {"z": [1, 2.5, "p q"], "a": {"k": None}}, "a": [], "c": "ü", "d": 0})
         n2 = g.add_op(Not, n1, metadata={"e": False, "f": "", "g": {}})
         g.set_outputs(n2)
+    elif name == "main_called":       # seeded C12-g: the function named `main` is itself applied (called and loaded)
+        mn = m.define_function("main", [tys.Bool], [tys.Bool])
+        r = m.define_function("retry", [tys.Bool], [tys.Bool])
+        mn.set_outputs(*mn.inputs())
+        c = r.call(mn.parent_node, *r.inputs())
+        r.load_function(mn.parent_node)
+        r.set_outputs(c[0])
+    elif name == "main_recursive":    # `main` calls itself from a nested region and loads itself
+        mn = m.define_function("main", [tys.Bool], [tys.Bool])
+        (b,) = mn.inputs()
+        with mn.add_nested(b) as d:
+            c = d.call(mn.parent_node, *d.inputs())
+            d.set_outputs(c[0])
+        mn.load_function(mn.parent_node)
+        mn.set_outputs(d[0])
+    elif name == "names_special":     # same name twice, empty name, names spelt like the mangled form of another one
+        sig = tys.PolyFuncType([], tys.FunctionType([tys.Bool], [tys.Bool]))
+        f1 = m.define_function("f", [tys.Bool], [tys.Bool])
+        f2 = m.define_function("f", [tys.Bool], [tys.Bool])
+        e = m.define_function("", [tys.Bool], [tys.Bool])
+        k1 = m.declare_function("_f_%d" % f1.parent_node.idx, sig)
+        k2 = m.declare_function("_%d_f" % f2.parent_node.idx, sig)
+        d1 = m.declare_function("main", sig)
+        mn = m.define_function("main", [tys.Bool], [tys.Bool])
+        f1.set_outputs(f1.call(f2.parent_node, *f1.inputs())[0])
+        f2.set_outputs(f2.call(e.parent_node, *f2.inputs())[0])
+        e.set_outputs(e.call(e.parent_node, *e.inputs())[0])
+        (b,) = mn.inputs()
+        for fn in (f1.parent_node, f2.parent_node, e.parent_node, k1, k2, d1, mn.parent_node):
+            b = mn.call(fn, b)[0]
+            mn.load_function(fn)
+        mn.set_outputs(b)
     elif name == "dfg_root":          # not a module: export of the root as a module region raises
         d = Dfg(tys.Bool)
         d.set_outputs(*d.inputs())
@@ -458,7 +492,8 @@ def named_program(name):
 
 
 NAMED = ["call_twice", "load_twice", "order_hint", "cfg_entry", "cfg_loop", "fn_value", "poly_call", "alias",
-         "unused_outputs", "order_fan", "order_back", "order_twice", "meta_json"]
+         "unused_outputs", "order_fan", "order_back", "order_twice", "meta_json", "main_called", "main_recursive",
+         "names_special"]
 # programs outside the guard of the theorems (not claimed valid): model and implementation must still agree
 BOUNDARY = ["dfg_root", "cfg_no_entry", "half_order"]
 GUARDS = ("g_valid", "g_order", "g_ports", "g_stars", "g_cfg", "g_hints", "g_total", "g_all", "g_noerr", "g_numexact",
@@ -518,6 +553,271 @@ def add_unrelated_order_edges(h, rng, tries=3):
             succ[a].add(b)
             added += 1
             break
+    return added
+
+
+# ----------------------------------------------------------------------------- call graphs with special names
+#
+# harness/progs.py names the functions of a module def<i> / decl<i> / poly<i> / main, never two alike, and never
+# lets anything call or load `main`.  The exporter derives the symbol of a function at two sites (the definition /
+# declaration, and every Call / LoadFunc that applies it); the property promises that the two agree for EVERY
+# function, whatever it is called and whoever applies it.  This stream makes the call graph and the names the
+# subject: any function (also `main`, also a declaration) may be called / loaded by any function (itself included,
+# also from a nested region), and the names come from a pool of special ones.
+
+SPECIAL_NAMES = ["main", "main", "main", "", "f", "f", "g", "_f_3", "_main_1", "_1_main", "main_1", "_main", "main_",
+                 "Main", "a.b", "core.call", "core.load_const", "f_1", "1", "0", "_", "__", "_0", "f g", " ", "ü",
+                 "_f", "f_", "entry", "x" * 40]
+CG_TYPES = ("U", "B", "BB", "P")          # [] -> [], [Bool] -> [Bool], [Bool, Bool] -> [Bool], forall T. [T] -> [T]
+
+
+def gen_callgraph(rng):
+    """an explicit, shrinkable description: functions (name, declared or defined, type) and, per defined function,
+    statements [kind, callee index / nested statements, argument selector]"""
+    nf = rng.randint(1, 5)
+    funcs = []
+    for i in range(nf):
+        r = rng.random()
+        if i and r < 0.15:
+            j = rng.randrange(i)                       # the name another function's symbol is (or might be) spelt with
+            name = ["mangled", j, rng.choice(["_%s_%d", "_%d_%s", "%s_%d", "_%s_%d_"])]
+        elif i and r < 0.3:
+            name = funcs[rng.randrange(i)]["name"]     # two functions with the same name
+        else:
+            name = rng.choice(SPECIAL_NAMES)
+        funcs.append({"name": name, "decl": rng.random() < 0.25, "ty": rng.choice(["U", "B", "B", "BB", "P"])})
+    if rng.random() < 0.7 and not any(f["name"] == "main" for f in funcs):
+        funcs[rng.randrange(nf)]["name"] = "main"
+    if all(f["decl"] for f in funcs):
+        funcs[rng.randrange(nf)]["decl"] = False
+
+    def stmts(depth):
+        out = []
+        for _ in range(rng.randint(0, 4)):
+            r = rng.random()
+            if r < 0.45:
+                out.append(["call", rng.randrange(nf), rng.randrange(8)])
+            elif r < 0.75:
+                out.append(["load", rng.randrange(nf)])
+            elif r < 0.85 and depth < 2:
+                out.append(["nest", stmts(depth + 1)])
+            else:
+                out.append(["not", rng.randrange(8)])
+        return out
+    for i, f in enumerate(funcs):
+        if not f["decl"]:
+            f["body"] = stmts(0)
+            if rng.random() < 0.5:                      # make sure the special shapes are frequent: self-application
+                f["body"].append([rng.choice(["call", "load"]), i, 0][: 3])
+    # somebody applies main
+    mains = [i for i, f in enumerate(funcs) if f["name"] == "main"]
+    defs = [f for f in funcs if not f["decl"]]
+    if mains and rng.random() < 0.8:
+        rng.choice(defs)["body"].append(rng.choice([["call", rng.choice(mains), 1], ["load", rng.choice(mains)]]))
+    return {"funcs": funcs}
+
+
+def build_callgraph(cg):
+    from hugr import tys, val
+    from hugr.build import Module
+    from hugr.std.logic import Not
+    m = Module()
+    T = tys.Variable(0, tys.TypeBound.Copyable)
+    rows = {"U": ([], []), "B": ([tys.Bool], [tys.Bool]), "BB": ([tys.Bool, tys.Bool], [tys.Bool]), "P": ([T], [T])}
+    nodes, builders, names = [], [], []
+    for f in cg["funcs"]:
+        name = f["name"]
+        if not isinstance(name, str):
+            _, j, fmt = name
+            j = j % len(nodes) if nodes else 0
+            args = (names[j], nodes[j].idx) if nodes else ("", 0)
+            name = fmt % (args if fmt.index("s") < fmt.index("d") else args[::-1])
+        ins, outs = rows[f["ty"]]
+        params = [tys.TypeTypeParam(tys.TypeBound.Copyable)] if f["ty"] == "P" else []
+        if f["decl"]:
+            n, b = m.declare_function(name, tys.PolyFuncType(params, tys.FunctionType(list(ins), list(outs)))), None
+        else:
+            b = m.define_function(name, list(ins), list(outs), params or None)
+            n = b.parent_node
+        nodes.append(n)
+        builders.append(b)
+        names.append(name)
+
+    def run(b, body, pool, here):
+        """pool: {"B": wires of type Bool, "T": wires of the type variable (inside a polymorphic definition)}"""
+        def pick(tag, sel):
+            if tag == "B" and not pool["B"]:
+                pool["B"].append(b.load(val.TRUE))
+            return pool[tag][sel % len(pool[tag])]
+        for st in body:
+            k = st[0]
+            if k in ("call", "load"):
+                j = st[1] % len(nodes)
+                ty = cg["funcs"][j]["ty"]
+                kw = {}
+                if ty == "P":
+                    # a polymorphic callee: at the type variable inside a polymorphic definition, else at Bool
+                    at = T if here == "P" else tys.Bool
+                    kw = {"instantiation": tys.FunctionType([at], [at]), "type_args": [tys.TypeTypeArg(at)]}
+                    tag = "T" if here == "P" else "B"
+                else:
+                    tag = "B"
+                if k == "load":
+                    b.load_function(nodes[j], **kw)
+                    continue
+                sel = st[2] if len(st) > 2 else 0
+                args = [pick(tag, sel + q) for q in range(len(rows[ty][0]))]
+                c = b.call(nodes[j], *args, **kw)
+                if rows[ty][1]:
+                    pool[tag].append(c[0])
+            elif k == "not":
+                pool["B"].append(b.add_op(Not, pick("B", st[1] if len(st) > 1 else 0)))
+            elif k == "nest":
+                wires = pool["B"] + pool["T"]
+                with b.add_nested(*wires) as d:
+                    inner = list(d.inputs())
+                    p2 = {"B": inner[: len(pool["B"])], "T": inner[len(pool["B"]):]}
+                    run(d, st[1], p2, here)
+                    res = (p2["B"][-1:] if p2["B"] else [])
+                    d.set_outputs(*res)
+                if res:
+                    pool["B"].append(d[0])
+    for f, b in zip(cg["funcs"], builders):
+        if b is None:
+            continue
+        ins = list(b.inputs())
+        pool = {"B": [], "T": ins} if f["ty"] == "P" else {"B": ins, "T": []}
+        run(b, f.get("body", []), pool, f["ty"])
+        if f["ty"] == "U":
+            b.set_outputs()
+        else:
+            b.set_outputs(pool["T" if f["ty"] == "P" else "B"][-1])
+    return m.hugr
+
+
+def shrink_callgraph(cg):
+    """smaller call graphs: one statement less (at any depth), one function less (its applications removed)"""
+    import copy
+
+    def drop_stmt(body):
+        for i in range(len(body)):
+            yield body[:i] + body[i + 1:]
+            if body[i][0] == "nest":
+                for sub in drop_stmt(body[i][1]):
+                    yield body[:i] + [["nest", sub]] + body[i + 1:]
+    fs = cg["funcs"]
+    for i in range(len(fs)):
+        if len(fs) < 2 or (not fs[i]["decl"] and all(f["decl"] for k, f in enumerate(fs) if k != i)):
+            continue
+
+        def fix(body):
+            out = []
+            for st in body:
+                if st[0] in ("call", "load"):
+                    if st[1] % len(fs) == i:
+                        continue
+                    j = st[1] % len(fs)
+                    out.append([st[0], j - (j > i)] + list(st[2:]))
+                elif st[0] == "nest":
+                    out.append(["nest", fix(st[1])])
+                else:
+                    out.append(st)
+            return out
+        new = []
+        for k, f in enumerate(fs):
+            if k == i:
+                continue
+            g = copy.deepcopy(f)
+            if not isinstance(g["name"], str) and g["name"][1] > i:
+                g["name"][1] -= 1                   # (the builder takes the index modulo the functions before it)
+            if "body" in g:
+                g["body"] = fix(g["body"])
+            new.append(g)
+        yield {"funcs": new}
+    for i, f in enumerate(fs):
+        for body in drop_stmt(f.get("body", [])):
+            g = copy.deepcopy(fs)
+            g[i]["body"] = body
+            yield {"funcs": g}
+
+
+def name_features(h):
+    """what the module's call graph / names exercise (for the distribution report only)"""
+    from hugr import ops
+    fns = {n: h[n].op.f_name for n in h if isinstance(h[n].op, (ops.FuncDefn, ops.FuncDecl))}
+    out = {"applied_main": 0, "self_applied": 0, "dup_names": 0, "plain_names": 0, "applied": 0}
+    names = list(fns.values())
+    out["dup_names"] = len(names) - len(set(names))
+    out["plain_names"] = sum(1 for x in names if re.fullmatch(r"(def|decl|poly|rowpoly)\d+|main|f|id|lf\d*", x) is not None)
+    out["special_names"] = len(names) - out["plain_names"]
+    mangled = {fmt % (a, b) for n, x in fns.items() for fmt, a, b in (("_%s_%d", x, n.idx), ("_%d_%s", n.idx, x))}
+    out["names_like_mangled"] = sum(1 for x in names if x in mangled)
+    for n in h:
+        if isinstance(h[n].op, (ops.Call, ops.LoadFunc)):
+            for _, srcs in h.incoming_links(n):
+                for s_ in srcs:
+                    if s_.node in fns:
+                        out["applied"] += 1
+                        out["applied_main"] += fns[s_.node] == "main"
+                        x = n
+                        while x != h.root and x != s_.node:
+                            x = h[x].parent
+                        out["self_applied"] += x == s_.node
+    return out
+
+
+def special_names_pass(h, rng):
+    """rename the functions of a finished module (hugr.ops.FuncDefn / FuncDecl .f_name is a public field; calls and
+    loads refer to their function by a static edge, not by name): special names, duplicates, `main` more than once"""
+    from hugr import ops
+    fns = [n for n in h if isinstance(h[n].op, (ops.FuncDefn, ops.FuncDecl))]
+    seen = []
+    for n in fns:
+        r = rng.random()
+        if r < 0.5:
+            continue
+        if seen and r < 0.65:
+            h[n].op.f_name = rng.choice(seen)
+        elif seen and r < 0.75:
+            o = rng.choice(fns)
+            h[n].op.f_name = rng.choice(["_%s_%d", "%s_%d"]) % (h[o].op.f_name, o.idx)
+        else:
+            h[n].op.f_name = rng.choice(SPECIAL_NAMES)
+        seen.append(h[n].op.f_name)
+
+
+def add_static_uses(h, rng, tries=3):
+    """harness/progs.py never applies `main` and never lets a function apply itself.  This adds, in random dataflow
+    regions, loads of random functions of the module (monomorphic ones: the instantiation is the signature) and
+    calls of functions without inputs whose outputs may be left unused (copyable).  Returns their number."""
+    from hugr import ops, tys
+    fns = [n for n in h.children(h.root) if isinstance(h[n].op, (ops.FuncDefn, ops.FuncDecl))]
+    mono = []
+    for n in fns:
+        try:
+            sig = h[n].op.signature
+        except Exception:
+            continue
+        if not sig.params:
+            mono.append((n, sig))
+    conts = [n for n in h if isinstance(h[n].op, (ops.DFG, ops.FuncDefn, ops.TailLoop, ops.Case, ops.DataflowBlock))]
+    if not mono or not conts:
+        return 0
+    mains = [x for x in mono if h[x[0]].op.f_name == "main"]
+    added = 0
+    for _ in range(rng.randint(1, tries)):
+        f, sig = rng.choice(mains) if mains and rng.random() < 0.6 else rng.choice(mono)
+        c = rng.choice(conts)
+        body = sig.body
+        if (not body.input and rng.random() < 0.5
+                and all(t.type_bound() == tys.TypeBound.Copyable for t in body.output)):
+            op = ops.Call(sig)
+            n = h.add_node(op, c, num_outs=len(body.output))
+        else:
+            op = ops.LoadFunc(sig)
+            n = h.add_node(op, c, num_outs=1)
+        h.add_link(f.out(0), n.inp(0))
+        added += 1
     return added
 
 
@@ -656,7 +956,10 @@ class C12(fw.Prop):
             "declared/defined/polymorphic functions called and loaded several times, module-level and local "
             "constants incl. function values, order edges (forward ones from the generator; in half of the cases the harness "
             "adds acyclic ones between unrelated siblings, mostly pointing backward), nested DFG/Conditional/TailLoop/"
-            "CFG, metadata) plus "
+            "CFG, metadata; in 40 % extra loads / calls of functions of the module incl. main and the enclosing "
+            "function, in 35 % functions renamed to special / duplicate / mangled-looking names) plus explicit call-graph "
+            "programs (1-5 declared / defined / polymorphic functions with special names, any function incl. main and "
+            "itself called and loaded, also from nested regions) plus "
             "hand-written ones; Hugr.to_model() (and Package.to_model()) observed as the dataclass tree.  "
             "non-trivial = the HUGR has a static edge (call or load), an order edge between siblings and a "
             "nested container")
@@ -693,12 +996,28 @@ class C12(fw.Prop):
                 c["package"] = True
             if c["root"] == "module" and rng.random() < 0.5:
                 c["xorder"] = True           # extra order edges between unrelated siblings, also pointing backward
+            if c["root"] == "module":
+                # who applies whom, and what the functions are called (both decided from the case seed alone, so the
+                # stream of programs is the one it was): main / the enclosing function applied, special names
+                r2 = random.Random(c["seed"] ^ 0xC12)
+                if r2.random() < 0.4:
+                    c["xstatic"] = True
+                if r2.random() < 0.35:
+                    c["rename"] = True
+            cases.append(c)
+        # call graphs with special names (explicit programs; see gen_callgraph)
+        for i in range(40 if tier == "quick" else 400):
+            c = {"cg": gen_callgraph(rng)}
+            if rng.random() < 0.1:
+                c["package"] = True
             cases.append(c)
         return cases
 
     def build(self, case):
         if "prog" in case:
             return named_program(case["prog"]), case["prog"]
+        if "cg" in case:
+            return build_callgraph(case["cg"]), "callgraph"
         kw = {}
         if "size" in case:
             kw["size"] = case["size"]
@@ -709,6 +1028,10 @@ class C12(fw.Prop):
             h = progs.run(p).hugr
             if case.get("xorder"):
                 add_unrelated_order_edges(h, random.Random(case["seed"] ^ 0x5EED))
+            if case.get("xstatic"):
+                add_static_uses(h, random.Random(case["seed"] ^ 0x57A7))
+            if case.get("rename"):
+                special_names_pass(h, random.Random(case["seed"] ^ 0x4A3E))
             return h, p
         except TypeError:
             # generator artefact (a region that could not be completed): replaced by a fixed program
@@ -723,6 +1046,7 @@ class C12(fw.Prop):
             return {"error": "build:" + type(e).__name__, "prog": None}
         try:
             view = hugr_view(h, I)
+            feats = name_features(h)
         except HarnessError as e:
             return {"error": "view:" + str(e), "prog": p}
         try:
@@ -732,15 +1056,21 @@ class C12(fw.Prop):
                 m = pk.modules[0] if len(pk.modules) == 1 else None
             else:
                 m = h.to_model()
-            numbering, ignored = {}, []
-            tree = model_tree(m, I, numbering, ignored)
+            numbering, ignored, symlog = {}, [], []
+            tree = model_tree(m, I, numbering, ignored, symlog)
             err = None
+            # diagnostic only (the spelling of symbols is not prescribed): are the function symbols spelt as
+            # model/ExportMangle.v: mangle spells them, "_<name>_<node index>"?
+            from hugr import ops as _ops
+            want = {"_%s_%d" % (h[n].op.f_name, n.idx) for n in h if isinstance(h[n].op, (_ops.FuncDefn, _ops.FuncDecl))}
+            want |= {h[n].op.alias for n in h if isinstance(h[n].op, (_ops.AliasDecl, _ops.AliasDefn))}
+            feats["symbols_as_modelled"] = set(symlog) == want
         except HarnessError as e:
             tree, err, numbering, ignored = None, "harness:" + str(e), {}, []
         except Exception as e:
             tree, err, numbering, ignored = None, type(e).__name__, {}, []
         return {"view": view, "tree": tree, "raised": err, "prog": p, "numbering": sorted(numbering.items()),
-                "ignored_meta": sorted(set(ignored))}
+                "ignored_meta": sorted(set(ignored)), "names": feats}
 
     def literal(self, case, obs, ctx):
         if "error" in obs:
@@ -815,8 +1145,15 @@ class C12(fw.Prop):
     def shrink(self, case):
         # programs are regenerated from a seed: smaller generator settings (statements per region, nesting
         # depth) for the same and for neighbouring seeds; the driver keeps the first variant that still fails
+        if "cg" in case:
+            for cg in shrink_callgraph(case["cg"]):
+                yield {**case, "cg": cg}
+            return
         if "seed" not in case:
             return
+        for flag in ("xorder", "rename", "xstatic", "package"):
+            if case.get(flag):
+                yield {k: v for k, v in case.items() if k != flag}
         size, depth = case.get("size", 6), case.get("depth", 3)
         for sz, dp in ((1, 1), (2, 1), (2, 2), (3, 2), (4, 2), (4, 3)):
             if (sz, dp) < (size, depth) and sz <= size and dp <= depth:
@@ -827,14 +1164,33 @@ class C12(fw.Prop):
         if "seed" in case:
             for k in range(40):
                 yield {**case, "seed": case["seed"] + 1 + k}
+        elif "cg" in case:
+            for k in range(40):
+                yield {**case, "cg": gen_callgraph(rng)}
 
     def distribution(self, cases, observations):
         d = {"nodes": [], "kinds": {}, "order_edges": 0, "sibling_order_edges": 0, "raised": {}, "packages": 0,
-             "non_module_roots": 0, "stmt_kinds": {}}
+             "non_module_roots": 0, "stmt_kinds": {}, "callgraph_cases": 0,
+             "names": {"cases_applying_main": 0, "cases_with_self_application": 0, "cases_with_duplicate_names": 0,
+                       "cases_with_special_names": 0, "cases_with_names_like_mangled": 0, "applications": 0,
+                       "applications_of_main": 0}}
         for c, o in zip(cases, observations):
             d["packages"] += bool(c.get("package"))
+            d["callgraph_cases"] += "cg" in c
             if "view" not in o:
                 continue
+            nf, dn = o.get("names") or {}, d["names"]
+            dn["cases_applying_main"] += nf.get("applied_main", 0) > 0
+            dn["cases_with_self_application"] += nf.get("self_applied", 0) > 0
+            dn["cases_with_duplicate_names"] += nf.get("dup_names", 0) > 0
+            dn["cases_with_special_names"] += nf.get("special_names", 0) > 0
+            dn["cases_with_names_like_mangled"] += nf.get("names_like_mangled", 0) > 0
+            dn["applications"] += nf.get("applied", 0)
+            dn["applications_of_main"] += nf.get("applied_main", 0)
+            if "symbols_as_modelled" in nf:
+                sm = d.setdefault("symbols_spelt_as_modelled", [0, 0])
+                sm[0] += bool(nf["symbols_as_modelled"])
+                sm[1] += 1
             s = self.stats(o)
             d["nodes"].append(s["nodes"])
             for k, v in s["kinds"].items():
